@@ -18,7 +18,8 @@ def parseObs (s : String) : Option (List Beh) :=
   if s == "-" then some [] else (s.splitOn ".").mapM parseBeh
 
 def parseOp (s : String) : Option Op :=
-  if s == "w" then some .poll
+  -- `t` = `poll_timeout` with a timeout far beyond the length of a run: the same operation as `poll`
+  if s == "w" || s == "t" then some .poll
   else if s.startsWith "s" then (s.drop 1).toString.toNat?.map .sub
   else if s.startsWith "p" then (s.drop 1).toString.toNat?.map .pub
   else if s.startsWith "x" then (s.drop 1).toString.toNat?.map .drop
